@@ -386,6 +386,28 @@ def family_W(big=True):
     return out
 
 
+def family_W3():
+    """Ids above 256 (CPython caches small ints only up to 256, so `is` on ids
+    stops working there): 3 students, 302 projects of which only four are ever
+    listed, 2 lecturers.  The contested projects are 257/258 and 301/302, with
+    11/12 as the small-id control of the same shape."""
+    out = []
+    for a, b in ((11, 12), (257, 258), (301, 302)):
+        npj = 302
+        lect = tuple(1 if p % 2 else 2 for p in range(1, npj + 1))
+        sprefs = (((a,), (b,)), ((a,), (b,)), ((b,), (a,)))
+        l1 = ((1,), (2,), (3,)) if a % 2 else ((3,), (2,), (1,))
+        lp = {1: l1, 2: ((3,), (1,), (2,))}
+        # each student lists a (lecturer of a) and b (lecturer of b)
+        la, lb = lect[a - 1], lect[b - 1]
+        lprefs = [None, None]
+        lprefs[la - 1] = ((1,), (2,), (3,))
+        lprefs[lb - 1] = ((3,), (1,), (2,)) if lb != la else lprefs[la - 1]
+        pq = tuple((0, 1) for _ in range(npj))
+        out.append(make3(3, npj, 2, sprefs, lect, tuple(lprefs), pq, ((0, 1, 2), (0, 1, 2))))
+    return out
+
+
 def family_W2():
     """Two-digit ids on BOTH sides: 11 students x 11 projects/hospitals, with
     the pairs (1,11) and (11,1) present and ranked differently (textual
